@@ -12,7 +12,7 @@ from checks._exec import sample
 def corpus(tier, rng):
     q = tier == "quick"
     n = 40 if q else 400
-    specs = families.goldens() + families.c01_core() + families.st_flat_core() + families.conv_mask_core() + families.frac_follow_core()
+    specs = families.goldens() + families.c01_core() + families.st_flat_core() + families.conv_mask_core() + families.frac_follow_core() + families.occ_flat_core()
     for g in (families.gen_c01, families.gen_shape, families.gen_occ, families.gen_flat, families.gen_flat3, families.gen_affine_plain, families.gen_conv,
               families.gen_cascade, families.gen_st, families.gen_st_affine, families.gen_st_flat):
         specs += sample(g, rng, n)
